@@ -5,7 +5,7 @@ import itertools
 
 import numpy as np
 
-from checks.common import hash_tag, relayout, xf_build, xf_names
+from checks.common import hash_tag, relayout, xf_build, xf_names, canon_value, quiet_call
 from qmc import gen as G
 from qmc import oracle as O
 from qmc.loader import load
@@ -189,6 +189,13 @@ def check_eig(lib, A, lam_exp, tags, fails, lay="C"):
     err = O.fro(O.qmatmul(A, V) - O.qmatmul(V, D))
     if err > bud:
         fails.append(fail("AV=VD", f"||A V - V diag(lambda)||_F = {err:.3e} (||A||={nA:.3e})", fn="eig", **tags))
+    # verbose=True must not change the result
+    okv, rv = quiet_call(lib.eigen.quaternion_eigendecomposition, Aq, verbose=True)
+    if not okv or canon_value(rv) != canon_value(res):
+        fails.append(fail("verbose_changes_result", f"eigendecomposition(verbose=True): {'raised ' + repr(rv) if not okv else 'different value'}", fn="eig", **tags))
+    okv, rv = quiet_call(lib.eigen.quaternion_eigenvalues, Aq, verbose=True)
+    if not okv or canon_value(rv) != canon_value(res[0]):
+        fails.append(fail("verbose_changes_result", f"quaternion_eigenvalues(verbose=True): {'raised ' + repr(rv) if not okv else 'different value'}", fn="eig", **tags))
     # the wrappers agree
     ok1, w1 = call(lib.eigen.quaternion_eigenvalues, Aq)
     ok2, V1 = call(lib.eigen.quaternion_eigenvectors, Aq)
